@@ -121,7 +121,7 @@ def gen_cases(ctx, count):
             # every entry with its own amount as mean, whatever its size; 'none' passes it through ("large counts", "always terminates")
             hs = list(state)
             for e_ in rng.sample(range(len(hs)), min(len(hs), rng.choice([1, 1, 2]))):
-                hs[e_] = float(rng.choice([2 ** 31, 2 ** 31 + 5, 3 * 10 ** 9 + 1, 2 ** 32 + 3, 5 * 10 ** 9, 2 ** 36 + 7]))
+                hs[e_] = float(rng.choice([2 * 10 ** 9 + 1, 2100000000, 2 ** 31 - 1, 2 ** 31, 2 ** 31 + 5, 3 * 10 ** 9 + 1, 2 ** 32 + 3, 5 * 10 ** 9, 2 ** 36 + 7]))
             for m, o in [("Poisson", rng.choice(OPTIONS)), ("none", rng.choice(OPTIONS)), ("Poisson", "euler")][:rng.choice([2, 3])]:
                 cases.append({"space": space, "kind": kind, "n": n, "ns": ns, "state": hs, "cls": "beyond-int", "mode": m, "option": o,
                               "seed": seed, "policy": "on_t_sample", "twice": False})
